@@ -108,6 +108,39 @@ func (t *TS) Build() cty.Type {
 	panic("bad TS")
 }
 
+// BuildAlt constructs the same type by other routes than Build: objects without optional
+// attributes through ObjectWithOptionalAttrs with an empty (non-nil) optional list, optional
+// lists in reverse order, element-type slices with spare capacity.  Structurally identical
+// types are the same type however they were constructed.
+func (t *TS) BuildAlt() cty.Type {
+	switch t.K {
+	case 'L':
+		return cty.List(t.Elem.BuildAlt())
+	case 'S':
+		return cty.Set(t.Elem.BuildAlt())
+	case 'M':
+		return cty.Map(t.Elem.BuildAlt())
+	case 'T':
+		es := make([]cty.Type, len(t.Elems), len(t.Elems)+3)
+		for i, e := range t.Elems {
+			es[i] = e.BuildAlt()
+		}
+		return cty.Tuple(es)
+	case 'O':
+		m := make(map[string]cty.Type, len(t.Attrs)+2)
+		opt := []string{}
+		for i := len(t.Attrs) - 1; i >= 0; i-- {
+			a := t.Attrs[i]
+			m[a.Name] = a.T.BuildAlt()
+			if a.Opt {
+				opt = append(opt, a.Name)
+			}
+		}
+		return cty.ObjectWithOptionalAttrs(m, opt)
+	}
+	return t.Build()
+}
+
 // Canon is an injective canonical string of the modelled type, optional
 // markers included.
 func (t *TS) Canon() string {
